@@ -124,9 +124,9 @@ class CellResolutionAttribute:
 
     if cr is not None:
 
-      m = CellResolutionAttribute._CELL_RESOLUTION_RE.match(cr)
+      m = CellResolutionAttribute._CELL_RESOLUTION_RE.fullmatch(cr)
 
-      if m is not None:
+      if m is not None and int(m.group(1)) > 0 and int(m.group(2)) > 0:
 
         return model.CellResolutionType(columns=int(m.group(1)), rows=int(m.group(2)))
 
@@ -155,9 +155,18 @@ class ExtentAttribute:
 
       s = extent.split(" ")
 
-      (w, w_units) = utils.parse_length(s[0])
+      try:
 
-      (h, h_units) = utils.parse_length(s[1])
+        if len(s) != 2:
+          raise ValueError("tts:extent on <tt> must have two components")
+
+        (w, w_units) = utils.parse_length(s[0])
+
+        (h, h_units) = utils.parse_length(s[1])
+
+      except ValueError:
+        LOGGER.error("tts:extent on <tt> invalid syntax")
+        return None
 
       if w_units != "px" or h_units != "px":
         LOGGER.error("ttp:extent on <tt> does not use px units")
@@ -166,7 +175,12 @@ class ExtentAttribute:
       if not w.is_integer() or not h.is_integer():
         LOGGER.error("Pixel resolution dimensions must be integer values")
 
-      return model.PixelResolutionType(int(w), int(h))
+      try:
+
+        return model.PixelResolutionType(int(w), int(h))
+
+      except ValueError:
+        LOGGER.error("tts:extent on <tt> must be larger than 0")
 
     return None
 
@@ -193,24 +207,35 @@ class ActiveAreaAttribute:
         LOGGER.error("Syntax error in ittp:activeArea on <tt>")
         return None
 
-      (left_offset, left_offset_units) = utils.parse_length(s[0])
+      try:
 
-      (top_offset, top_offset_units) = utils.parse_length(s[1])
+        (left_offset, left_offset_units) = utils.parse_length(s[0])
 
-      (w, w_units) = utils.parse_length(s[2])
+        (top_offset, top_offset_units) = utils.parse_length(s[1])
 
-      (h, h_units) = utils.parse_length(s[3])
+        (w, w_units) = utils.parse_length(s[2])
+
+        (h, h_units) = utils.parse_length(s[3])
+
+      except ValueError:
+        LOGGER.error("Syntax error in ittp:activeArea on <tt>")
+        return None
 
       if w_units != "%" or h_units != "%" or left_offset_units != "%" or top_offset_units != "%":
         LOGGER.error("ittp:activeArea on <tt> must use % units")
         return None
 
-      return model.ActiveAreaType(
-        left_offset / 100,
-        top_offset / 100,
-        w / 100,
-        h / 100
-        )
+      try:
+
+        return model.ActiveAreaType(
+          left_offset / 100,
+          top_offset / 100,
+          w / 100,
+          h / 100
+          )
+
+      except ValueError:
+        LOGGER.error("ittp:activeArea on <tt> is out of range")
 
     return None
 
